@@ -375,12 +375,15 @@ func filterMerge(ctx stick.Context, val stick.Value, args ...stick.Value) stick.
 		argMap, ok := args[0].(map[string]stick.Value)
 
 		if ok {
-			if outMap == nil {
-				outMap = make(map[string]stick.Value, len(argMap))
+			// merge into a copy: the filtered value may be a variable of the template
+			merged := make(map[string]stick.Value, len(outMap)+len(argMap))
+			for k, v := range outMap {
+				merged[k] = v
 			}
 			for k, v := range argMap {
-				outMap[k] = v
+				merged[k] = v
 			}
+			return merged
 		}
 
 		return outMap
